@@ -16,6 +16,7 @@ import NomtModel.Driver.PipelineMode
 import NomtModel.Driver.WalkerMode
 import NomtModel.Driver.BranchUpdMode
 import NomtModel.Driver.SeekMode
+import NomtModel.Driver.SeekerMode
 import NomtModel.Driver.PrepSyncMode
 import NomtModel.Driver.HasherMode
 import NomtModel.Driver.CachesMode
@@ -54,6 +55,7 @@ def main (args : List String) : IO UInt32 := do
   | ["walker"] => loop stdin stdout walkerStep {}; return 0
   | ["branchupd"] => loop stdin stdout branchupdStep {}; return 0
   | ["seek"] => loop stdin stdout seekStep {}; return 0
+  | ["seeker"] => loop stdin stdout seekerStep {}; return 0
   | ["prepsync"] => loop stdin stdout prepsyncStep (); return 0
   | ["hasher"] => loop stdin stdout hasherStep {}; return 0
   | ["caches"] => loop stdin stdout cachesStep {}; return 0
